@@ -769,7 +769,7 @@ def cg1(ctx, R):
         prog.func(q)
     entries = ["tdms.TdmsChannel.read_data", "tdms.TdmsChannel.__getitem__", "tdms.TdmsChannel._read_slice", "tdms.TdmsChannel._read_at_index",
                "tdms.TdmsChannel.data_chunks", "tdms.TdmsChannel.__iter__"]
-    kinds = {"direct", "self", "super", "receiver", "byname", "ctor", "prop"}
+    kinds = {"direct", "self", "super", "receiver", "byname-unique", "ctor", "prop"}
     for e in entries:
         prog.func(e)
         seen = cg.reachable([e], kinds=kinds)
